@@ -129,7 +129,8 @@ const TIGHT_OUT: usize = 29;
 const PARTIAL_MOVED: usize = 30;
 const DELTA_OK: usize = 31;
 const NEAR_INT: usize = 32;
-const NC: usize = 33;
+const BAND: usize = 33;
+const NC: usize = 34;
 
 #[derive(Clone)]
 struct Stats {
@@ -1081,6 +1082,55 @@ pub fn run(ctx: &Ctx) -> Report {
         })
         .reduce(Stats::default, Stats::merge);
 
+    // ---- (ii-c) the boundaries of the 256-bit numerator of the token-A amount: liquidity x price width around 2^192 and 2^193 (the
+    // exact amounts there exceed u64 by far: every evaluation must be an error, a success is a wrapped value) and around 2^128 ----
+    let band: Vec<(u128, u128, u128)> = {
+        let ps = &p1.prices;
+        let mut v = vec![];
+        for (i, &lo) in ps.iter().enumerate() {
+            for &hi in &ps[i + 1..] {
+                let w = bu(hi - lo);
+                let mut ls: Vec<u128> = vec![];
+                for e in [128u32, 192, 193] {
+                    if let Some(x) = crate::refmodel::ceil_div(&(BigUint::one() << e), &w).to_u128() {
+                        ls.extend([x.saturating_sub(1), x, x.saturating_add(1)]);
+                    }
+                }
+                if let Some(x) = ((BigUint::from(3u32) << 191u32) / &w).to_u128() {
+                    ls.push(x);
+                }
+                for l in sorted(ls) {
+                    if l > 0 {
+                        v.push((lo, hi, l));
+                    }
+                }
+            }
+        }
+        v
+    };
+    let s2f = band
+        .par_iter()
+        .map(|&(lo, hi, liq)| {
+            if ctx.left() < 0.0 {
+                capped.store(true, Ordering::Relaxed);
+                return Stats::default();
+            }
+            let mut st = Stats::default();
+            eval_deltas(lo, hi, liq, &mut st);
+            eval_deltas(hi, lo, liq, &mut st);
+            if (bu(liq) * bu(hi - lo)).bits() >= 193 {
+                st.c[BAND] += 1;
+            }
+            // one swap step in each direction and mode over the same triple
+            for (p0, pt) in [(lo, hi), (hi, lo)] {
+                for exact_in in [true, false] {
+                    eval_case(&Case { amount: u64::MAX, fee: 3000, liq, p0, pt, exact_in, a_to_b: pt < p0 }, &mut st);
+                }
+            }
+            st
+        })
+        .reduce(Stats::default, Stats::merge);
+
     // ---- (iii) U256Muldiv ----
     let words: Vec<u64> = if quick {
         vec![0, 1, (1 << 63) - 1, 1 << 63, u64::MAX - 1, u64::MAX]
@@ -1093,7 +1143,7 @@ pub fn run(ctx: &Ctx) -> Report {
     std::panic::set_hook(prev_hook);
 
     // ---- report ----
-    let phases = [("cross", &s1), ("box_ticks", &s2a), ("box_unit_2^64", &s2b), ("box_unit_min", &s2c), ("box_unit_max", &s2d), ("near_integer", &s2e)];
+    let phases = [("cross", &s1), ("box_ticks", &s2a), ("box_unit_2^64", &s2b), ("box_unit_min", &s2c), ("box_unit_max", &s2d), ("near_integer", &s2e), ("product_band", &s2f)];
     let mut tot = Stats::default();
     for (name, s) in phases.iter() {
         r.set(&format!("steps_{name}"), s.c[EVALS]);
@@ -1178,6 +1228,7 @@ pub fn run(ctx: &Ctx) -> Report {
     r.guard("amount_delta_ok", tot.c[DELTA_OK]);
     r.set("near_integer_triples", near.len() as u64);
     r.guard("near_integer_triples_with_u64_amount_a", tot.c[NEAR_INT]);
+    r.guard("triples_with_liquidity_x_width_at_or_above_2_pow_192", tot.c[BAND]);
     r.guard("u256_knuth_d", us.c[U_PATH + 4]);
     r.guard("u256_single_word_divisor", us.c[U_PATH + 3]);
     r.guard("u256_qhat_corrected", us.c[U_QHAT]);
